@@ -79,6 +79,7 @@ def applyKey (c : Cfg) (ctx : Nat) (k : String) (v : Nat) : Option Cfg :=
   | "bomb" => some { c with bombLimit := v }
   | "spaceuri" => some { c with allowSpaceUri := b }
   | "lws" => some { c with lwsUnwanted := v }
+  | "log" => some c                        -- log level: no effect on anything the model reports
   | "urlenc" => some { c with urlencParsers := b }
   | "mpart" => some { c with multipartParser := b }
   | _ => none
